@@ -32,7 +32,7 @@ checks = {
    note="Trusted: std::fmt for expected integer text, std::io::Write::write_all, the model. Failing-sink 'selection' clause is a subsequence match over random payload bytes (see evidence assumptions).",
    tech="deterministic simulation: seeded operation histories on the real writer over a simulated Write seam with injected short writes / EINTR / errors, reference byte-stream model"),
  "C14": dict(cat="exploration", ref="DESIGN.md §4 C14",
-   text="Operation histories of C02 and C11 extended with crash operations: advance/advance_with_buf past the buffer (documented panic, caught, object used again), sources that claim more bytes than offered or panic, sinks that lie or panic. Oracle 1 (both native builds): after every caught panic the reference model still matches (buf_len checked before buf() is touched), nothing reaches the sink that was not written, and a 64-byte red zone behind every heap block (harness allocator) is intact. Oracle 1b (both native builds): scanner cases and parser drives are executed under several 'poison' bytes that the simulated source scribbles over the unused part of every offered slice; results must not depend on the poison (stale bytes). Oracle 2: the same kinds of histories plus scanner cases (buffered amount aimed at the 8-byte load boundary) and parser drives (tiny btor2/cnf/aag/aig/satlog documents under small chunks) under Miri in 16 parallel interpreter processes; any 'Undefined Behavior' report is a violation. A native part that is killed by a signal is re-run with one worker and the run in progress is reported as C14.crash; a run that never returns is <P>.hang. The components are additionally executed (smaller cases, separate seeded stream) by the Miri interpreter emulating a big-endian 64-bit target (s390x), a 32-bit target (i686) and aarch64; model violations and undefined behaviour there are violations.",
+   text="Operation histories of C02 and C11 extended with crash operations: a refill with a chunk size that cannot be allocated on top of the buffered data (capacity-overflow panic, caught, chunk size set back, reader used again); advance/advance_with_buf past the buffer (documented panic, caught, object used again), sources that claim more bytes than offered or panic, sinks that lie or panic. Oracle 1 (both native builds): after every caught panic the reference model still matches (buf_len checked before buf() is touched), nothing reaches the sink that was not written, and a 64-byte red zone behind every heap block (harness allocator) is intact. Oracle 1b (both native builds): scanner cases and parser drives are executed under several 'poison' bytes that the simulated source scribbles over the unused part of every offered slice; results must not depend on the poison (stale bytes). Oracle 2: the same kinds of histories plus scanner cases (buffered amount aimed at the 8-byte load boundary) and parser drives (tiny btor2/cnf/aag/aig/satlog documents under small chunks) under Miri in 16 parallel interpreter processes; any 'Undefined Behavior' report is a violation. A native part that is killed by a signal is re-run with one worker and the run in progress is reported as C14.crash; a run that never returns is <P>.hang. The components are additionally executed (smaller cases, separate seeded stream) by the Miri interpreter emulating a big-endian 64-bit target (s390x), a 32-bit target (i686) and aarch64; model violations and undefined behaviour there are violations.",
    note="Trusted: Miri (stands in for the AddressSanitizer named in the property and is stricter), the red-zone allocator, the models of C02/C11. Miri runs are few (hundreds per quick run, thousands per thorough run) because the interpreter is slow.",
    tech="deterministic simulation with crash injection (caught panics, lying/panicking Read and Write), reference model after each crash; Miri and allocator red zones as memory oracles"),
  "C13": dict(cat="exploration", ref="DESIGN.md §4 C13",
